@@ -431,7 +431,7 @@ def smallest_cap(algo, K, n, k=1):
 # rewards
 
 OPEN_FAMILIES = ["neg", "const", "zero", "tied", "noisy", "large", "large_off", "unit", "drift", "altext",
-                 "incr", "decr", "best_first", "best_last", "twoval", "quant5", "bern", "negbern", "nonpos3", "hugeneg", "intnormal", "intwide", "int3wide"]
+                 "incr", "decr", "best_first", "best_last", "twoval", "quant5", "bern", "negbern", "nonpos3", "hugeneg", "intnormal", "intwide", "int3wide", "records"]
 HUGE_FAMILIES = ["huge"]
 CLOSED_FAMILIES = ["cl_hump", "cl_sine", "cl_garland", "cl_step", "cl_negdist"]
 
@@ -487,6 +487,15 @@ def open_rewards(fam, seed, T):
     if fam == "best_last":
         r = -rng.random(T) - 0.5
         r[-1] = 0.25
+        return r
+    if fam == "records":
+        # a new strict record in about one round out of seven (so the best evaluation so far is often a recent one,
+        # at every stopping time), noise below every record otherwise
+        r = -rng.random(T) - 0.5
+        top = 0.0
+        for t in np.flatnonzero(rng.random(T) < 0.15):
+            top += float(rng.uniform(0.1, 1.0))
+            r[t] = top
         return r
     if fam == "roundidx":
         return np.arange(1, T + 1, dtype=float)
@@ -596,10 +605,18 @@ def gen_params(rng, algo, n, K, narrow=False):
     """parameters drawn log-uniformly from the documented ranges"""
     nu = float(10 ** rng.uniform(-2, 2)) if not narrow else float(10 ** rng.uniform(-1, 1))
     rho = float(rng.uniform(0.02, 0.98)) if not narrow else float(rng.uniform(0.2, 0.9))
+    corner = False
+    if algo in ("T_HOO", "HCT", "VHCT", "Zooming") and not narrow and rng.random() < 0.1:
+        # far corners of the documented ranges (nu > 0, 0 < rho < 1, 0 < delta < 1): tiny or huge smoothness constants,
+        # confidence levels close to 1 (where c1*delta/t+ exceeds 1 for the first rounds and must be clamped)
+        corner = True
+        nu = float(10 ** rng.uniform(-9, -2)) if rng.random() < 0.6 else float(10 ** rng.uniform(2, 6))
     if algo == "T_HOO":
         return {"nu": nu, "rho": rho}
     if algo in ("HCT", "VHCT"):
         P = {"nu": nu, "rho": rho, "c": float(10 ** rng.uniform(-3, 0.5)), "delta": float(10 ** rng.uniform(-6, -0.01))}
+        if corner and rng.random() < 0.7:
+            P["delta"] = float(rng.uniform(0.5, 0.999))
         if algo == "VHCT":
             P["bound"] = float(10 ** rng.uniform(-2, 1.5))
         return P
